@@ -24,7 +24,13 @@ by the harness, 0 = felt.Zero). Chains are written GENESIS FIRST.
   feed-init fresh|len     fresh feed model (id scheme; `fresh` is the code)                          -> ok
   feed sub K | feed unsub H | feed send V | feed recv H   one feed operation (K = keep-last 0/1, H = handle)
                           -> h<handle> | ok | val V | empty | closed | bad-handle
-  cfg Z N C               model variant (zeroGuard numCheck confirmHead, 0/1); default = `Cfg.asFound`  -> ok
+  cfg Z N C V L           model variant (zeroGuard numCheck confirmHead verifyAns confirmLatest, 0/1);
+                          default = `Cfg.asFound`; the acceptor's mode is `Cfg.mode`                  -> ok
+  impl-init B*            start the event machine `Impl` with this chain                            -> ok
+  impl deliver REQ B C | impl reorg NEXT (N H | -) (B | -) | impl iter (B | -) REVOK | impl restart
+                          one event of `Impl.step`     -> `<obs>;<obs>… | task=<lpv|->`
+  impl? <event>           the same answer without changing the state
+  impl-end                -> `chain=<…> reorg=<range|-> task=<lpv|->`
 -/
 open Juno.Proto Juno.C06
 
@@ -76,6 +82,7 @@ structure St where
   spec : Spec
   feed : Feed.Feed := Feed.init
   gen : Feed.IdGen := .fresh
+  impl : Impl := Impl.init []
 
 def showFeedOut : Feed.Out → String
   | .handle h => s!"h{h}"
@@ -85,6 +92,20 @@ def showFeedOut : Feed.Out → String
   | .closed => "closed"
   | .badHandle => "bad-handle"
 
+def optBlk? (s : String) : Option (Option Blk) :=
+  if s == "-" then some none else (blk? s).map some
+
+/-- one event of the serial machine:
+  deliver REQ B C | reorg NEXT (N H | -) (B | -) | iter (B | -) REVOK | restart -/
+def implEv? : List String → Option Ev
+  | ["deliver", r, b, c] => do pure (.deliver (← r.toNat?) (← blk? b) (← bit? c))
+  | ["reorg", n, "-", cb] => do pure (.reorgDetected (← n.toNat?) none (← optBlk? cb))
+  | ["reorg", n, ln, lh, cb] => do
+    pure (.reorgDetected (← n.toNat?) (some ⟨← ln.toNat?, ← lh.toNat?⟩) (← optBlk? cb))
+  | ["iter", b, ok] => do pure (.iter (← optBlk? b) (← bit? ok))
+  | ["restart"] => some .restart
+  | _ => none
+
 def feedOp? : List String → Option Feed.Op
   | ["sub", k] => (bit? k).map .subscribe
   | ["unsub", h] => h.toNat?.map .unsubscribe
@@ -92,7 +113,7 @@ def feedOp? : List String → Option Feed.Op
   | ["recv", h] => h.toNat?.map .recv
   | _ => none
 
-def stepSpec (cfg : Cfg) (strict : Bool) (s : Spec) (line : String) : Spec × String :=
+def stepSpec (cfg : Cfg) (m : Mode) (s : Spec) (line : String) : Spec × String :=
   match words line with
   | "spec-init" :: bs =>
     match chain? bs with
@@ -139,7 +160,8 @@ def stepSpec (cfg : Cfg) (strict : Bool) (s : Spec) (line : String) : Spec × St
       if hd.num == n && hd.hash == h then
         let e1 := s.ev.blocks.any (fun rb => rb.1 == hd.num && rb.2.num == hd.num && rb.2.hash != hd.hash)
         let e3 := s.ev.blocks.any (fun rb => rb.2.ok && rb.2.num == hd.num + 1 && rb.2.parent != hd.hash)
-        let e2 := justified true ⟨[], s.ev.latests⟩ s.chain hd
+        let e2 := s.ev.rlatests.any (fun l => decide (l.num ≤ hd.num) &&
+          (match byNumber? s.chain l.num with | some lb => lb.hash != l.hash | none => false))
         (s, s!"asked={e1} successor={e3} latest={e2}")
       else (s, "reject revert-not-of-head")
     | _, _, _ => (s, "bad-op")
@@ -161,16 +183,39 @@ def stepSpec (cfg : Cfg) (strict : Bool) (s : Spec) (line : String) : Spec × St
     match specEv? ws with
     | none => (s, "bad-op")
     | some e =>
-      match s.step strict e with
+      match s.step m e with
       | .ok s' => (s', "ok")
       | .error r => (s, "reject " ++ r.name)
 
 def stepLine (st : St) (line : String) : St × String :=
   match words line with
-  | ["cfg", z, n, c] =>
-    match bit? z, bit? n, bit? c with
-    | some z, some n, some c => ({ st with cfg := ⟨z, n, c⟩ }, "ok")
-    | _, _, _ => (st, "bad-op")
+  | ["cfg", z, n, c, v, l] =>
+    match bit? z, bit? n, bit? c, bit? v, bit? l with
+    | some z, some n, some c, some v, some l => ({ st with cfg := ⟨z, n, c, v, l⟩ }, "ok")
+    | _, _, _, _, _ => (st, "bad-op")
+  | "impl-init" :: bs =>
+    match chain? bs with
+    | some c => ({ st with impl := Impl.init c }, "ok")
+    | none => (st, "bad-op")
+  | ["impl-end"] =>
+    (st, s!"chain={showChain st.impl.node.chain} reorg=" ++
+      (match st.impl.node.reorg with | some r => showRange r | none => "-") ++ " task=" ++
+      (match st.impl.task with | some l => toString l | none => "-"))
+  | "impl?" :: ws =>
+    -- what WOULD the event do (the state is not changed)
+    match implEv? ws with
+    | none => (st, "bad-op")
+    | some e =>
+      let r := st.impl.step st.cfg e
+      (st, ";".intercalate (r.2.map showObs) ++ " | task=" ++
+        (match r.1.task with | some l => toString l | none => "-"))
+  | "impl" :: ws =>
+    match implEv? ws with
+    | none => (st, "bad-op")
+    | some e =>
+      let r := st.impl.step st.cfg e
+      ({ st with impl := r.1 }, ";".intercalate (r.2.map showObs) ++ " | task=" ++
+        (match r.1.task with | some l => toString l | none => "-"))
   | ["feed-init", g] =>
     if g == "fresh" then ({ st with feed := Feed.init, gen := .fresh }, "ok")
     else if g == "len" then ({ st with feed := Feed.init, gen := .lenOfMap }, "ok")
@@ -179,9 +224,10 @@ def stepLine (st : St) (line : String) : St × String :=
     match feedOp? ws with
     | none => (st, "bad-op")
     | some op => let r := Feed.step st.gen st.feed op; ({ st with feed := r.1 }, showFeedOut r.2)
-  | ["cfg?"] => (st, s!"{st.cfg.zeroGuard} {st.cfg.numCheck} {st.cfg.confirmHead}")
+  | ["cfg?"] =>
+    (st, s!"{st.cfg.zeroGuard} {st.cfg.numCheck} {st.cfg.confirmHead} {st.cfg.verifyAns} {st.cfg.confirmLatest}")
   | _ =>
-    -- the acceptor is strict (no revert on a successor block) exactly when the code confirms the head
-    let (s', out) := stepSpec st.cfg st.cfg.confirmHead st.spec line; ({ st with spec := s' }, out)
+    -- the acceptor demands what the code variant can be held to (`Cfg.mode`)
+    let (s', out) := stepSpec st.cfg st.cfg.mode st.spec line; ({ st with spec := s' }, out)
 
 def main : IO Unit := loop stepLine { cfg := Cfg.asFound, spec := Spec.init [] }
